@@ -12,6 +12,9 @@ import Driver.C14
 import Driver.C16
 import Driver.C12
 import Driver.C02
+import Driver.C08
+import Driver.C09
+import Driver.C17
 /-!
 # Line-protocol driver
 
@@ -38,6 +41,9 @@ def dispatch (inp obs : List String) : Verdict :=
   | some "C16pp" => Driver.C16.runPair inp obs
   | some "C12" => Driver.C12.run inp obs
   | some "C02" => Driver.C02.run inp obs
+  | some "C08" => Driver.C08.run inp obs
+  | some "C09" => Driver.C09.run inp obs
+  | some "C17" => Driver.C17.run inp obs
   | _ => { agree := false, model := "unknown-model" }
 
 partial def loop (h : IO.FS.Stream) (out : IO.FS.Stream) : IO Unit := do
